@@ -101,7 +101,10 @@ def fn_proof_perturbed(unit, f, safety=False):
         if c2:
             cands = c2
     ch = [it for it in cands if it['status'] != 'identical']
-    return bool(ch) and all((it.get('restructured') and it.get('perturbed')) or it.get('dropped') or (it.get('rearranged') and not safety) for it in ch)
+    # ... except when the edit only took executable text away and no proof statement went with it: the annotations then still
+    # stand on the statements they were written for, and what fails is what the remaining code no longer does
+    return bool(ch) and all((it.get('restructured') and it.get('perturbed') and not (it.get('deleted_only') and not it.get('dropped')))
+                            or it.get('dropped') or (it.get('rearranged') and not safety) for it in ch)
 
 
 def only_foreign_clauses(unit, texts_, pid):
@@ -119,15 +122,11 @@ def only_foreign_clauses(unit, texts_, pid):
         if not m:
             return False
         k = int(m.group(1)) - 2          # 0-based index of the line above the clause
+        # the mark stands on the line directly above the clause it speaks for (and for no clause further down)
         tags = None
-        while k >= 0:
-            ln = lines[k].strip()
-            if ln.startswith('//@ONLY'):
-                tags = ln[len('//@ONLY'):].split()
-                break
-            if ln.startswith('//') or ln == '' or ln.startswith('ensures') or ln.startswith('requires'):
-                break
-            k -= 1
+        ln = lines[k].strip() if k >= 0 else ''
+        if ln.startswith('//@ONLY'):
+            tags = ln[len('//@ONLY'):].split()
         if not tags or pid in tags:
             return False
     return True
